@@ -8,8 +8,13 @@ package main
 import (
 	"bytes"
 	"fmt"
+	"runtime"
 	"strconv"
+	"strings"
 	"sync"
+	"sync/atomic"
+
+	"github.com/golang/protobuf/proto"
 
 	"github.com/xuperchain/xupercore/bcs/ledger/xledger/ledger"
 	"github.com/xuperchain/xupercore/bcs/ledger/xledger/state/utxo/txhash"
@@ -18,6 +23,9 @@ import (
 )
 
 func execConc(w []string, line string, prop string) string {
+	if len(w) > 4 {
+		return execConcStorm(w, line, prop)
+	}
 	if len(w) != 4 {
 		return "bad-op"
 	}
@@ -94,4 +102,195 @@ func execConc(w []string, line string, prop string) string {
 	return "-"
 }
 
-var _ = pb.InternalBlock{}
+// conc <seed> <n> <iters> w=<workers> big=<maxlen> gc=<0|1> [ver=<versions>]: the SCHEDULE the barrier form above never
+// produces - a goroutine descheduled in the MIDDLE of an id computation while others go on computing. <workers> goroutines
+// (several per core) each walk all jobs <iters> times without a barrier, starting at different jobs; with gc=1 a disturber
+// goroutine forces garbage collections all the while: every collection stops all goroutines wherever they are, hands them
+// to other cores afterwards and ages the sync.Pool caches (what a pooled / cached / package-level buffer needs to change
+// hands). The objects: n random ones, of which every other transaction is a SIBLING of its predecessor - same shape, every
+// byte string of the same length, other content (json / length-prefixed streams of equal length: a mixed-up buffer yields
+// exactly the sibling's digest) - and a third carry fields of up to <maxlen> bytes (streams of very different lengths, long
+// hashing times). Versions of the transactions from ver= (default 1,2,3 cycling; "12" = the json digests only).
+func execConcStorm(w []string, line string, prop string) string {
+	m := parseKV(w[4:])
+	seed, _ := strconv.ParseUint(w[1], 10, 64)
+	n := int(atoi(w[2]))
+	iters := int(atoi(w[3]))
+	workers := int(atoi(m["w"]))
+	big := int(atoi(m["big"]))
+	vers := m["ver"]
+	if vers == "" {
+		vers = "123"
+	}
+	if n < 1 || iters < 1 || workers < 1 || workers > 4096 {
+		return "bad-op"
+	}
+	r := xvlib.NewRng(seed)
+	type job struct {
+		name string
+		f    func() ([]byte, error)
+		want []byte
+	}
+	var jobs []*job
+	var prev *pb.Transaction
+	for i := 0; i < n; i++ {
+		if prop == "C08" {
+			b := randBlock(r)
+			txs := mkTxs(1+r.Intn(9), fmt.Sprintf("c%d", i))
+			if big > 0 && i%3 == 2 {
+				txs = mkTxs(64+r.Intn(192), fmt.Sprintf("c%d", i))
+			}
+			jobs = append(jobs, &job{name: "MakeBlockID", f: func() ([]byte, error) { return ledger.MakeBlockID(b) }})
+			jobs = append(jobs, &job{name: "MakeMerkleTree", f: func() ([]byte, error) {
+				t := ledger.MakeMerkleTree(txs)
+				return bytes.Join(t, nil), nil
+			}})
+			continue
+		}
+		var tx *pb.Transaction
+		switch {
+		case i%2 == 1 && prev != nil:
+			tx = siblingTx(r, prev)
+		default:
+			tx = randTx(r, int32(vers[(i/2)%len(vers)]-'0'))
+			if big > 0 && (i/2)%3 == 2 {
+				tx.Desc = randBytes(r, 1+r.Intn(big))
+				for _, o := range tx.TxOutputsExt {
+					o.Value = randBytes(r, 1+r.Intn(big))
+				}
+			}
+		}
+		prev = tx
+		v := fmt.Sprintf(":v%d", tx.Version)
+		jobs = append(jobs, &job{name: "MakeTransactionID" + v, f: func() ([]byte, error) { return txhash.MakeTransactionID(tx) }})
+		jobs = append(jobs, &job{name: "MakeTxDigestHash" + v, f: func() ([]byte, error) { return txhash.MakeTxDigestHash(tx) }})
+	}
+	var live []*job
+	for _, j := range jobs {
+		v, err := j.f()
+		if err != nil {
+			continue
+		}
+		j.want = v
+		live = append(live, j)
+	}
+	if len(live) == 0 {
+		return "-"
+	}
+	var mu sync.Mutex
+	bad := ""
+	var stop int32
+	var wg sync.WaitGroup
+	start := make(chan struct{})
+	for k := 0; k < workers; k++ {
+		wg.Add(1)
+		go func(k int) {
+			defer wg.Done()
+			cur := ""
+			defer func() {
+				if p := recover(); p != nil {
+					mu.Lock()
+					bad = cur + ":panic"
+					mu.Unlock()
+					atomic.StoreInt32(&stop, 1)
+				}
+			}()
+			<-start
+			for it := 0; it < iters && atomic.LoadInt32(&stop) == 0; it++ {
+				for x := range live {
+					j := live[(x+k*7)%len(live)]
+					cur = j.name
+					v, err := j.f()
+					if err != nil || !bytes.Equal(v, j.want) {
+						what := j.name
+						for _, o := range live {
+							if o != j && err == nil && bytes.Equal(v, o.want) {
+								what += ":answer-of-another-object"
+								break
+							}
+						}
+						mu.Lock()
+						if bad == "" {
+							bad = what
+						}
+						mu.Unlock()
+						atomic.StoreInt32(&stop, 1)
+						return
+					}
+				}
+			}
+		}(k)
+	}
+	done := make(chan struct{})
+	if m["gc"] == "1" {
+		go func() {
+			for {
+				select {
+				case <-done:
+					return
+				default:
+				}
+				runtime.GC()
+				runtime.Gosched()
+			}
+		}()
+	}
+	close(start)
+	wg.Wait()
+	close(done)
+	if bad != "" {
+		name := strings.TrimSuffix(bad, ":answer-of-another-object")
+		if i := strings.Index(name, ":v"); i >= 0 { // the version is detail, the key names the function
+			rest := ""
+			if j := strings.Index(name[i+1:], ":"); j >= 0 {
+				rest = name[i+1+j:]
+			}
+			name = name[:i] + rest
+		}
+		out.Violate(xvlib.Violation{Key: "id-differs-under-concurrency:" + name,
+			What: fmt.Sprintf("%s of an unchanged object, computed while other goroutines compute ids / digests of other objects, differs from the same call made alone: the id is not the hash of the object's content", bad),
+			Ops:  []string{line}, Impl: []string{bad}})
+	}
+	out.Count("conc-storm")
+	return "-"
+}
+
+// siblingTx: a deep copy of t in which every non-empty byte string / string is replaced by other content of the SAME
+// length (numbers, flags and text fields kept): the encoded streams of the two transactions have the same length in every version.
+func siblingTx(r *xvlib.Rng, t *pb.Transaction) *pb.Transaction {
+	c := proto.Clone(t).(*pb.Transaction)
+	fb := func(b []byte) []byte {
+		if len(b) == 0 {
+			return b
+		}
+		return randBytes(r, len(b))
+	}
+	c.Desc = fb(c.Desc)
+	for _, x := range c.TxInputs {
+		x.RefTxid, x.FromAddr, x.Amount = fb(x.RefTxid), fb(x.FromAddr), fb(x.Amount)
+	}
+	for _, x := range c.TxOutputs {
+		x.Amount, x.ToAddr = fb(x.Amount), fb(x.ToAddr)
+	}
+	for _, x := range c.TxInputsExt {
+		x.Key, x.RefTxid = fb(x.Key), fb(x.RefTxid)
+	}
+	for _, x := range c.TxOutputsExt {
+		x.Key, x.Value = fb(x.Key), fb(x.Value)
+	}
+	for _, q := range c.ContractRequests {
+		for k, v := range q.Args {
+			q.Args[k] = fb(v)
+		}
+	}
+	for _, x := range c.InitiatorSigns {
+		x.Sign = fb(x.Sign)
+	}
+	for _, x := range c.AuthRequireSigns {
+		x.Sign = fb(x.Sign)
+	}
+	if c.XuperSign != nil {
+		c.XuperSign.Signature = fb(c.XuperSign.Signature)
+	}
+	return c
+}
